@@ -461,6 +461,13 @@ impl Run {
             if let Some(n) = sm.get("distinct_nontrivial").and_then(|x| x.as_u64()) {
                 self.leg_nontrivial += n as usize;
             }
+            if let Some(ss) = sm.get("samples").and_then(|x| x.as_arr()) {
+                for x in ss {
+                    if self.merged.samples.len() < 12 {
+                        self.merged.samples.push(x.clone().set("observed_in_leg", leg));
+                    }
+                }
+            }
         }
         tool_errors.sort();
         tool_errors.dedup();
@@ -483,7 +490,14 @@ impl Run {
         summary.put("leg_violations", leg_viol);
         summary.put("log_lines", lines.len());
         if !summaries.is_empty() {
-            summary.put("summaries", J::A(summaries.clone()));
+            let slim: Vec<J> = summaries
+                .iter()
+                .map(|sm| match sm {
+                    J::O(o) => J::O(o.iter().filter(|(k, _)| k != "samples").cloned().collect()),
+                    other => other.clone(),
+                })
+                .collect();
+            summary.put("summaries", J::A(slim));
         }
         // status classification
         let ok = status == Some(0) && !summaries.is_empty();
@@ -657,6 +671,7 @@ impl Run {
                     .set("distinct_nontrivial", nt)
                     .set("violations", unknown)
                     .set("sub_checks", J::A(self.sub_stats.clone()))
+                    .set("samples", J::A(self.merged.samples.iter().take(4).cloned().collect()))
                     .set("wall_s", wall)
                     .to_string_compact()
             );
